@@ -1559,7 +1559,8 @@ func op_jmp(cpu *CPU) {
 		cpu.PC = cpu.nRead16_wrap(0x00, cpu.StepInfo.Addr)
 		cpu.RK = cpu.nRead(0x00, cpu.StepInfo.Addr+2)
 	default:
-		cpu.PC = cpu.cmdRead16()
+		// (a,X): the pointer was read with both bytes inside the program bank
+		cpu.PC = cpu.StepInfo.Addr
 	}
 	cpu.stepPC = 0
 }
@@ -1580,7 +1581,8 @@ func op_jsr(cpu *CPU) {
 	case m_Absolute:
 		cpu.PC = cpu.StepInfo.Addr
 	default:
-		cpu.PC = cpu.cmdRead16()
+		// (a,X): the pointer was read with both bytes inside the program bank
+		cpu.PC = cpu.StepInfo.Addr
 	}
 	cpu.stepPC = 0
 }
